@@ -10,10 +10,11 @@ executable preprocessor model `CbiVerif.PP` (`assocFile`, `Platform.findInclude`
 What is modelled differently from the code, on purpose:
 * the parse cache `ParserState.trees` is not threaded from one command to the next:
   every command starts from an empty `PState` and parses what it needs
-  (`insertFile`).  In the code the cache is shared by all commands and platforms; it is
-  meant to be transparent (a tree is a function of the file's text).  That the shared
-  cache (and the tokens stored in it) is really unobservable is NOT proved — it is what
-  the correspondence check tests (and where finding F-C08-2 lives).
+  (`insertFile`).  In the code the cache is shared by all commands and platforms.  That the
+  shared cache is unobservable is PROVED for the total model with the explicit cache,
+  `Model/FindCache.lean` (`C08.cache_transparent_partial`, `C08.find_cached_eq_findG_partial`),
+  up to finding F-C08-1 = D19; that the tokens stored in the cache are never modified is what
+  the correspondence check tests (finding F-C08-2, repaired).
 * the up-front parse of every code-base file and every entry file is kept only as the
   error check `prepare` (an unparsable file aborts the run).
 * the platform's name is only used by `associate`; the single-command analysis runs under
@@ -54,13 +55,16 @@ def freshPlatform (e : Entry) : Except Err Platform :=
         go rest (if (plat.tbl.get m.name).isNone then { plat with tbl := plat.tbl ++ [(m.name, m)] } else plat)
   go e.defines { name := "", incPaths := e.includePaths }
 
-/-- one `-include` file: found relative to the source file's directory, parsed, associated -/
+/-- one `-include` file: found relative to the source file's directory, parsed, associated
+(unless `#pragma once` put it on the platform's once-list) -/
 def forcedInclude (fs : FSMap) (e : Entry) (w : World) (inc : String) : World :=
   if w.st.err.isSome then w else
   let (found, p2) := w.plat.findInclude fs inc (dirname e.file) false
   let w := { w with plat := p2 }
   match found with
   | some f =>
+    -- `elif file_platform.process_include(include_file)`: a file on the once-list is not processed again
+    if w.plat.skip.contains f then w else
     let w := { w with st := w.st.insertFile fs f }
     if w.st.err.isNone then assocFile fs f w else w
   | none => w
